@@ -103,6 +103,23 @@ func c09Gen(rng *rand.Rand, tier string, i int) *Sexp {
 		files.List = append(files.List, L(HS(fmt.Sprintf("p%d", k)), H(genBytes(rng, 9))))
 	}
 	content := genBytes(rng, 14)
+	// one case in three: a word of the menu planted in the content, followed by ANY byte value (the word-boundary test of
+	// MatchWord / MatchString on every possible next byte), and queried at that very position
+	plantAt, plantWord := -1, ""
+	if rng.Intn(3) == 0 {
+		head := genBytes(rng, 6)
+		for len(head) > 0 && head[len(head)-1] == '\r' {
+			head = head[:len(head)-1]
+		}
+		plantWord = []string{"a", "ab", "b", "aba", "ba"}[rng.Intn(5)]
+		next := byte(rng.Intn(256))
+		for next == '\r' {
+			next = byte(rng.Intn(256))
+		}
+		plantAt = len(bytes.ReplaceAll(head, []byte("\r\n"), []byte("\n")))
+		content = append(append(append([]byte{}, head...), plantWord...), next)
+		content = append(content, genBytes(rng, 4)...)
+	}
 	files.List = append(files.List, L(HS("t"), H(content)))
 	// compute the target's offset and length the way the library will (CRLF normalisation)
 	off := 1
@@ -115,6 +132,9 @@ func c09Gen(rng *rand.Rand, tier string, i int) *Sexp {
 	strs := []string{"a", "ab", "b", "aba", "é", "a\n", " ", "_a"}
 	words := []string{"a", "ab", "b", "aba", "a_", "ba", "a", "b"}
 	modes := []string{"none", "spaces", "nl", "force"}
+	if plantAt >= 0 {
+		ops.List = append(ops.List, LA("matchWord", N(off+plantAt), HS(plantWord)), LA("matchString", N(off+plantAt), HS(plantWord)))
+	}
 	for cur := 0; cur <= len(norm); cur++ {
 		pos := off + cur
 		for k := 0; k < 3; k++ {
